@@ -39,6 +39,9 @@ import (
 //   - MarshalJSONIndent / IndentJSON / UnmarshalJSON / YAML / Capitalize / ToKebab: oracle only
 //     ("documented error or documented panic message, never a runtime error").
 //   - thin stdlib wrappers: compared with the stdlib directly (supporting differential tests).
+//   - argument-kind matrix (kinds.go): the builtins with an `any` parameter on values of every
+//     reflect.Kind, from Go and from a template; oracle = documentation, model = the regenerated
+//     guard programs (Gen/ReflectGuards.lean).
 //
 // Every case is one protocol line `C25 <op> <arg>…`; ops that have a model are also sent to
 // the Lean driver. A replay file's `case` is such a line and is re-evaluated by -replay.
@@ -94,6 +97,13 @@ type op struct {
 	// run evaluates the real code and the property's oracle. clause == "" when the property
 	// holds; impl is the canonical answer (compared with the model's when model is set).
 	run func(a []string) (clause, impl, human string)
+	// modelFor, when set, gives the driver line for these arguments ("" = no model answer for
+	// this case); agree, when set, replaces the equality of impl and the model's answer
+	modelFor func(a []string) string
+	agree    func(impl, model string) bool
+	// classify, when set, names the open finding whose class predicts this failing case from the
+	// input alone ("" = none: a violation)
+	classify func(a []string, clause string) string
 }
 
 func unhex(s string) string {
@@ -693,6 +703,68 @@ var wrappers = map[string]*wrapper{
 			})
 			return got, want, fmt.Sprintf("RegExp(%q) on %q, n=%d", expr, s, n)
 		}},
+	"Date": {
+		gen: func(g *gen) []string {
+			in := func() string {
+				return strconv.Itoa([]int{0, 1, -1, 12, 13, 31, 32, 59, 60, 61, 2021, 1970, -1 << 31, 1<<31 - 1, math.MinInt64, math.MaxInt64, 999999999, 1000000000, g.r.Intn(4001) - 2000}[g.r.Intn(19)])
+			}
+			loc := g.r.Pick([]string{"", "UTC", "Local", "Europe/Rome", "America/New_York", "Nowhere/X", "utc", "\xff", "../x", "a\x00b", "/etc/passwd", "Europe/", g.str(5)})
+			return []string{in(), in(), in(), in(), in(), in(), in(), proto.Hex([]byte(loc))}
+		},
+		run: func(a []string) (string, string, string) {
+			var n [7]int
+			for i := range n {
+				n[i] = atoi(a[i])
+			}
+			loc := unhex(a[7])
+			got := call(func() any {
+				t, err := builtin.Date(n[0], n[1], n[2], n[3], n[4], n[5], n[6], loc)
+				if err != nil {
+					return fmt.Sprint("error ", strings.HasPrefix(err.Error(), "date: "))
+				}
+				return fmt.Sprint(t.Unix(), t.Nanosecond())
+			})
+			want := call(func() any {
+				// documented: "If location does not exist, it returns an error"; out-of-range values are normalised
+				l, err := time.LoadLocation(loc)
+				if err != nil {
+					return "error true"
+				}
+				t := time.Date(n[0], time.Month(n[1]), n[2], n[3], n[4], n[5], n[6], l)
+				return fmt.Sprint(t.Unix(), t.Nanosecond())
+			})
+			return got, want, fmt.Sprintf("Date(%v, %q)", n, loc)
+		}},
+	"ParseTime": {
+		gen: func(g *gen) []string {
+			layout := g.r.Pick([]string{"", time.RFC3339, time.RFC1123, "2006-01-02", "15:04", "Jan _2", "2006-01-02T15:04:05.999999999Z07:00", "x", "\xff", "2006", "MST", "-0700", g.str(6)})
+			value := g.r.Pick([]string{"", "2021-03-27T11:21:14+01:00", "2021-03-27", "11:21", "Mar 27", "Mon, 02 Jan 2006 15:04:05 MST", "2021-02-30", "0000-00-00", "x", "\xff", "9999-12-31T23:59:59.999999999Z",
+				"2021-03-27 11:21:14", "27/03/2021", "2021", "+0100", "CET", g.str(10)})
+			return []string{proto.Hex([]byte(layout)), proto.Hex([]byte(value))}
+		},
+		run: func(a []string) (string, string, string) {
+			layout, value := unhex(a[0]), unhex(a[1])
+			got := call(func() any {
+				t, err := builtin.ParseTime(layout, value)
+				if err != nil {
+					return fmt.Sprint("error ", strings.HasPrefix(err.Error(), "parseTime: "))
+				}
+				return fmt.Sprint(t.Unix(), t.Nanosecond())
+			})
+			want := got
+			if layout != "" { // with the empty layout a predefined list is tried: only "never a panic, error prefix" is checked
+				want = call(func() any {
+					t, err := time.Parse(layout, value)
+					if err != nil {
+						return "error true"
+					}
+					return fmt.Sprint(t.Unix(), t.Nanosecond())
+				})
+			} else if got == "error false" {
+				want = "error true"
+			}
+			return got, want, fmt.Sprintf("ParseTime(%q, %q)", layout, value)
+		}},
 	"SortReverse": {
 		gen: func(g *gen) []string { return []string{g.hexString(12)} },
 		run: func(a []string) (string, string, string) {
@@ -863,6 +935,9 @@ func unicodeTable(s string) string {
 // modelLine is the line sent to the Lean driver for a case line.
 func modelLine(l string) string {
 	f := strings.Fields(l)
+	if o := ops[f[1]]; o != nil && o.modelFor != nil {
+		return o.modelFor(f[2:])
+	}
 	switch f[1] {
 	case "capitalize", "capitalizeall", "tokebab":
 		return strings.Join(f[:3], " ") + " " + unicodeTable(unhex(f[2]))
@@ -913,7 +988,7 @@ func shrinkLine(l string, o *op, clause string) string {
 func run(c *hx.Ctx) error {
 	res := c.Res
 	g := &gen{r: c.R}
-	res.Rule = "one case = one call of a builtin on generated arguments. QueryEscape/onlyJSONWhitespace/trimJSONSpace: all single bytes, all strings over a small alphabet up to length L, random strings (text, multi-byte runes, ill-formed UTF-8, arbitrary bytes; lengths biased to 0..3); Abbreviate: the same strings with n from {boundaries, rune count±1, byte length±1, small, random}; Abs/Max/Min: boundary integers (all pairs) and random; MarshalJSONIndent/IndentJSON/UnmarshalJSON/YAML: whitespace strings polluted with 0xff, 0xfe, 0x00, 0x0b, 0x0c, 0xa0 and random JSON-ish documents; stdlib wrappers: random (s, related substring/cutset, n) triples. Non-trivial: the function changes/rejects its input (an escape is produced, whitespace is trimmed, abbreviation happens, prefix/indent non-empty …); distinct by case line"
+	res.Rule = "one case = one call of a builtin on generated arguments. QueryEscape/onlyJSONWhitespace/trimJSONSpace: all single bytes, all strings over a small alphabet up to length L, random strings (text, multi-byte runes, ill-formed UTF-8, arbitrary bytes; lengths biased to 0..3); Abbreviate: the same strings with n from {boundaries, rune count±1, byte length±1, small, random}; Abs/Max/Min: boundary integers (all pairs) and random; MarshalJSONIndent/IndentJSON/UnmarshalJSON/YAML: whitespace strings polluted with 0xff, 0xfe, 0x00, 0x0b, 0x0c, 0xa0 and random JSON-ish documents; stdlib wrappers: random (s, related substring/cutset, n) triples (Date: boundary integers and existing/missing/ill-formed locations; ParseTime: layouts x values); argument-kind matrix (kinds.go): every builtin with an any parameter x ~250 values of every reflect.Kind (nil, scalars, slices of every element kind, arrays, maps, chans, funcs, structs, unsafe.Pointer, named types, a pointer to each, the nil pointer of each type, pointers to pointers/interfaces) x data strings, each from Go and from a template; every operation of Spec/Reflect.lean on every value of the matrix against package reflect. Non-trivial: the function changes/rejects its input (an escape is produced, whitespace is trimmed, abbreviation happens, prefix/indent non-empty …); distinct by case line"
 
 	if c.Replay != "" { // re-run exactly the recorded case first, then the whole (deterministic) run
 		if err := replay(c); err != nil {
@@ -922,8 +997,15 @@ func run(c *hx.Ctx) error {
 	}
 
 	// recorded findings: replay the minimal input; still failing -> reported under its id
+	// A finding is active only while its recorded witness still fails (and, for a finding with a
+	// class, is predicted by its own class): a cured finding explains nothing.
+	active := map[string]bool{}
 	for _, f := range c.Findings {
-		if _, _, clause, impl, human, err := evalLine(f.Minimal); err == nil && clause != "" {
+		if o, args, clause, impl, human, err := evalLine(f.Minimal); err == nil && clause != "" {
+			if o.classify != nil && o.classify(args, clause) != f.ID {
+				continue
+			}
+			active[f.ID] = true
 			res.AddBreak(proto.Break{Kind: "property", Name: clause, Case: f.Minimal, Human: human, Impl: impl, Finding: f.ID})
 		}
 	}
@@ -1002,7 +1084,15 @@ func run(c *hx.Ctx) error {
 		}
 	}
 	abbrRec("", 0)
+	kindCases(add)
 	nExhaustive := len(cases)
+	if c.D != nil {
+		if err := kindCoverage(c.D.Ask, func(what, name, ans string) {
+			res.AddBreak(proto.Break{Kind: "correspondence", Name: "argument-kind coverage: " + what, Case: name, Impl: "no stream in go/props/c25", Model: ans})
+		}); err != nil {
+			return err
+		}
+	}
 
 	// --- random ---
 	for i := 0; i < c.N(25000, 250000); i++ {
@@ -1079,20 +1169,23 @@ func run(c *hx.Ctx) error {
 				lines = append(lines, l)
 			}
 		}
-		sent := make([]string, len(lines))
-		for i, l := range lines {
-			sent[i] = modelLine(l)
+		var sent, asked []string
+		for _, l := range lines {
+			if m := modelLine(l); m != "" {
+				sent, asked = append(sent, m), append(asked, l)
+			}
 		}
 		ans, err := c.D.Batch(sent)
 		if err != nil {
 			return err
 		}
-		for i, l := range lines {
+		for i, l := range asked {
 			model[l] = ans[i]
 		}
 	}
 
 	// --- evaluate ---
+	precision, firstMiss := map[string][2]int{}, map[string]string{}
 	for i, l := range cases {
 		o, args, clause, impl, human, err := evalLine(l)
 		if err != nil {
@@ -1108,25 +1201,79 @@ func run(c *hx.Ctx) error {
 		if opName == "w" {
 			res.SpecChecks["stdlib-differential:"+args[0]]++
 		}
+		if opName == "reflectspec" && impl != "skipped" {
+			res.SpecChecks["reflect-spec:"+args[0]]++
+		}
+		if opName == "kind" {
+			res.Hist("kind-" + args[0] + "-" + args[3] + "-" + strings.Fields(impl)[0])
+		}
 		if i%7919 == 0 && nontrivial {
 			res.Sample(map[string]string{"case": l, "human": human, "impl": impl, "model": model[l]})
 		}
-		if clause != "" {
-			ml := shrinkLine(l, o, clause)
-			_, _, _, mimpl, mhuman, _ := evalLine(ml)
-			res.AddBreak(proto.Break{Kind: "property", Name: clause, Case: ml, Human: mhuman, Impl: mimpl, Model: model[ml]})
+		attributed := false
+		if opName == "kind" { // precision of the finding classes (fixes/FINDING-CLASSES.md 3), recorded on every run
+			for _, kc := range kindClasses {
+				if p := kc.predict(args); p != "" {
+					precision[kc.id] = [2]int{precision[kc.id][0] + 1, precision[kc.id][1]}
+					if p == clause {
+						precision[kc.id] = [2]int{precision[kc.id][0], precision[kc.id][1] + 1}
+					} else if firstMiss[kc.id] == "" {
+						firstMiss[kc.id] = l
+					}
+				}
+			}
 		}
-		if m, ok := model[l]; ok && o.model {
+		if clause != "" {
+			// attribution first, on the original input; shrinking keeps it (fixes/FINDING-CLASSES.md 2b)
+			finding := ""
+			if o.classify != nil {
+				if id := o.classify(args, clause); active[id] {
+					finding = id
+				}
+			}
+			ml := l
+			if finding == "" {
+				ml = shrinkLine(l, o, clause)
+				if o.classify != nil {
+					if mo, margs, mcl, _, _, err := evalLine(ml); err != nil || mcl != clause || mo.classify(margs, mcl) != "" {
+						ml = l
+					}
+				}
+			}
+			_, _, _, mimpl, mhuman, _ := evalLine(ml)
+			attributed = finding != "" // the finding explains the deviation from the model as well
+			res.AddBreak(proto.Break{Kind: "property", Name: clause, Case: ml, Human: mhuman, Impl: mimpl, Model: model[ml], Finding: finding})
+		}
+		if m, ok := model[l]; ok && o.model && !attributed {
 			implLine := impl
 			if strings.HasPrefix(impl, "err panic") {
 				implLine = "err panic"
 			}
-			if m != implLine && !(implLine == "err panic" && strings.HasPrefix(m, "err ")) {
+			if o.agree != nil {
+				if !o.agree(impl, m) {
+					res.AddBreak(proto.Break{Kind: "correspondence", Name: opName + "-model-vs-builtin", Case: l, Human: human, Impl: impl, Model: m})
+				}
+			} else if m != implLine && !(implLine == "err panic" && strings.HasPrefix(m, "err ")) {
 				res.AddBreak(proto.Break{Kind: "correspondence", Name: opName + "-model-vs-builtin", Case: l, Human: human, Impl: impl, Model: m})
 			}
 		}
 	}
 
+	for _, kc := range kindClasses {
+		if !active[kc.id] {
+			continue
+		}
+		n, hit := precision[kc.id][0], precision[kc.id][1]
+		res.Histogram["class-precision/"+kc.id+"/predicted"] = n
+		res.Histogram["class-precision/"+kc.id+"/fail-as-predicted"] = hit
+		if os.Getenv("VERIF_C25_STRICT") == "1" { // authoring-time check of the classes, never part of a normal run
+			if n == 0 {
+				res.AddBreak(proto.Break{Kind: "correspondence", Name: "finding-class-precision-unmeasured: " + kc.id, Case: "-"})
+			} else if hit*100 < n*95 {
+				res.AddBreak(proto.Break{Kind: "correspondence", Name: "finding-class-too-broad: " + kc.id, Case: firstMiss[kc.id], Impl: fmt.Sprintf("%d of %d predicted cases fail as predicted", hit, n)})
+			}
+		}
+	}
 	return specValidation(c, g)
 }
 
@@ -1265,14 +1412,14 @@ func replay(c *hx.Ctx) error {
 		}
 		c.Res.Count(l, o.nontrivial(args))
 		m := ""
-		if c.D != nil && o.model {
-			if m, err = c.D.Ask(modelLine(l)); err != nil {
+		if ml := modelLine(l); c.D != nil && o.model && ml != "" {
+			if m, err = c.D.Ask(ml); err != nil {
 				return err
 			}
 		}
 		if clause != "" {
 			c.Res.AddBreak(proto.Break{Kind: "property", Name: clause, Case: l, Human: human, Impl: impl, Model: m})
-		} else if o.model && m != "" && m != impl {
+		} else if o.model && m != "" && (o.agree == nil && m != impl || o.agree != nil && !o.agree(impl, m)) {
 			c.Res.AddBreak(proto.Break{Kind: "correspondence", Name: strings.Fields(l)[1] + "-model-vs-builtin", Case: l, Human: human, Impl: impl, Model: m})
 		}
 	}
